@@ -122,8 +122,10 @@ Theorem C14_reachable_not_contributor : forall Ms C g, Inv Ms C -> ~ In g (map a
 Proof. exact Inv_not_contributor. Qed.
 Print Assumptions C14_reachable_not_contributor.
 
-(* ---- rollback: after a snapshot and any operations that do not use that snapshot id, rolling back
-   restores the combined model (and the record of what is merged) exactly ---- *)
+(* ---- rollback: after a snapshot and any operations that do not use that snapshot id - merges, unmerges,
+   FURTHER snapshots under other ids and rollbacks to those - rolling back restores the combined model (and the
+   record of what is merged) exactly; so with several snapshots outstanding each rollback gives the model of its own
+   snapshot, in whatever order they are consumed (C14_ex_two_snapshots) ---- *)
 Theorem C14_rollback : forall s id ops,
   hasn id (h_snaps s) = false ->
   forallb (fun o => negb (touches id o)) ops = true ->
@@ -182,3 +184,13 @@ Example C14_ex_sources_untouched :
               map Cbm14Store.n_nid (Cbm14Store.of_gid 0 st') = [10; 11] /\
               map Cbm14Store.n_si (Cbm14Store.of_gid 0 st') = [Cbm14Store.SIds [1]; Cbm14Store.SIds [1]].
 Proof. exact Cbm14Frame.ex_frame. Qed.
+Example C14_ex_two_snapshots :
+  let s1 := hrun hinit [HMerge A1] in
+  let s2 := hrun hinit [HMerge A1; HSnap 100; HMerge A2] in
+  let mid := [HMerge A2; HSnap 101; HMerge A3] in
+  forallb (fun o => negb (touches 100 o)) mid = true /\
+  h_cur (hrun hinit ([HMerge A1; HSnap 100] ++ mid ++ [HRollback 100])) = h_cur s1 /\
+  h_cur (hrun hinit ([HMerge A1; HSnap 100] ++ mid ++ [HRollback 101])) = h_cur s2 /\
+  h_cur (hrun hinit ([HMerge A1; HSnap 100] ++ mid ++ [HRollback 101; HRollback 100])) = h_cur s1 /\
+  nodes (h_cur s1) <> nodes (h_cur s2).
+Proof. exact ex_two_snapshots. Qed.
